@@ -619,3 +619,4 @@ PROPS["C16"]["rule"] += (" Both parts also generate cron expressions without a f
                          "fine) and, for crolt, absolute RFC3339 due times.")
 PROPS["C16"]["rule"] += " No job may fire inside a span in which the cron is certainly suspended (from the moment the loop has taken the suspend command to the call of Resume)."
 PROPS["C18"]["rule"] += " Further error classes: an ill-typed id, an ill-typed uri (carried by a body or a batch element), an ill-typed set."
+PROPS["C18"]["rule"] += " The operations include /api/loc/util/js (scripts with and without a value, missing / ill-typed / non-compiling code)."
